@@ -33,13 +33,13 @@ type cacheKeyed struct {
 }
 
 type execOp struct {
-	kind    int // 0 Exec shared template, 1 Parse+Exec, 2 Render, 3 CacheSet+Render, 4 Clone+Exec, 5 page then layout with ONE context, 6 NewTemplate+Exec inside the task, 7 RenderR
+	kind    int // 0 Exec shared template, 1 Parse+Exec, 2 Render, 3 CacheSet+Render, 4 Clone+Exec, 5 page then layout with ONE context, 6 NewTemplate+Exec inside the task, 7 RenderR, 8 layout on a child of the page's context
 	prog    int
 	variant int
 }
 
 func (o execOp) String() string {
-	k := [...]string{"Exec(shared template)", "Parse+Exec", "Render", "CacheSet(NewTemplate)+Render", "Clone+Exec", "Exec(page) then Exec(layout) with the same context", "NewTemplate+Exec (parsed by the task itself)", "RenderR (text from a reader)"}[o.kind]
+	k := [...]string{"Exec(shared template)", "Parse+Exec", "Render", "CacheSet(NewTemplate)+Render", "Clone+Exec", "Exec(page) then Exec(layout) with the same context", "NewTemplate+Exec (parsed by the task itself)", "RenderR (text from a reader)", "Exec(layout) on a child of the context that rendered the page"}[o.kind]
 	return fmt.Sprintf("%s prog %d data %d", k, o.prog, o.variant)
 }
 
@@ -132,6 +132,9 @@ func c14ExecRun(t *rapid.T) {
 	// in the first case of a fresh process this is the process's FIRST use of lexer, parser and evaluator, from
 	// several goroutines at once (lazily initialised package-level tables and the like)
 	scenario := 1 + uni(t, "scenario", 4)
+	// S7 (drawn separately, rarely): the shared parent of S2 has itself rendered a page before, so it holds a
+	// contentFor block; the children render the layout, which runs that block through contentOf
+	parentPage := scenario == 2 && uni(t, "parentpage", 4) == 0
 	maxTasks := 6
 	if thorough {
 		maxTasks = 32
@@ -177,6 +180,9 @@ func c14ExecRun(t *rapid.T) {
 				o.kind = 6
 			case 1, 2:
 				o.kind = []int{0, 0, 0, 4, 1, 5, 5, 7}[uni(t, "kind", 8)]
+				if parentPage {
+					o.kind = 8
+				}
 			default:
 				o.kind = []int{1, 2, 2, 3, 7, 7}[uni(t, "kind", 6)]
 			}
@@ -225,6 +231,13 @@ func c14ExecRun(t *rapid.T) {
 			t.Fatalf("VERIF-INTERNAL layout does not parse: %v", lerr)
 		}
 	}
+	var sharedLayout7 *plush.Template
+	if parentPage {
+		var lerr error
+		if sharedLayout7, lerr = plush.NewTemplate(s7Layout); lerr != nil {
+			t.Fatalf("VERIF-INTERNAL S7 layout does not parse: %v", lerr)
+		}
+	}
 	shared := make([]*plush.Template, nprog)
 	parents := make([]*plush.Context, nprog)
 	var snaps []*liveTmpl
@@ -248,6 +261,12 @@ func c14ExecRun(t *rapid.T) {
 		}
 		if scenario == 2 {
 			parents[i] = mkParent(p)
+			if parentPage {
+				// the parent renders a page of its own first (the block it stores reads a name only the children bind)
+				if _, err := safeRender(s7Page, parents[i]); err != nil {
+					t.Fatalf("VERIF-INTERNAL S7 page does not render: %v", err)
+				}
+			}
 		}
 		if scenario == 3 && cacheOn && (warm == 2 || (warm == 1 && i%2 == 0)) {
 			if tm, err := guardedParse(p.Main); err == nil {
@@ -311,6 +330,9 @@ func c14ExecRun(t *rapid.T) {
 						input = tm.Input
 						out, err = safeExec(tm, ctx)
 					}
+				case 8:
+					ctx.Set("who", fmt.Sprintf("T%d.%d", i, x))
+					out, err = safeExec(sharedLayout7, ctx)
 				case 7:
 					out, err = safeRenderR(&chunkReader{s: p.Main, sizes: []int{1 + (i+x)%7, 64, 5}}, ctx)
 				case 2:
@@ -393,6 +415,9 @@ func c14ExecRun(t *rapid.T) {
 	if scenario == 4 {
 		scName = "S6" // S4 and S5 are the context scenarios of c14ctx.go
 	}
+	if parentPage {
+		scName = "S7"
+	}
 	details := func(msg string) func() map[string]interface{} {
 		return func() map[string]interface{} {
 			var ps []interface{}
@@ -461,7 +486,27 @@ func c14ExecRun(t *rapid.T) {
 		return
 	}
 	if races > 0 {
-		sig := "race:" + strings.Join(racePairs(raceText), " ; ")
+		pairs := racePairs(raceText)
+		sig := "race:" + strings.Join(pairs, " ; ")
+		if parentPage {
+			// S7 has ONE known way to race (known_findings.json): the block stored by the parent's page keeps the
+			// page's evaluator, and every child's contentOf swaps that evaluator's context and records statements in
+			// it. The known signature is used only when BOTH sides of EVERY reported pair are HelperContext.BlockWith
+			// or a method of that evaluator or of the scopes it opens (the swapped context makes one goroutine's loop scope
+			// another's); any other race in this scenario keeps its full signature. The same code runs in S1-S6
+			// without the parent's page, so a race of its own in evaluator or Context is still reported there.
+			all := len(pairs) > 0
+			for _, pr := range pairs {
+				for _, sd := range strings.Split(pr, " | ") {
+					if !strings.Contains(sd, "HelperContext.BlockWith") && !strings.HasPrefix(sd, "(*compiler).") && !strings.HasPrefix(sd, "(*Context).") {
+						all = false
+					}
+				}
+			}
+			if all {
+				sig = "race:S7:evaluator-shared-through-contentFor-block-of-the-parent"
+			}
+		}
 		violate(t, "C14", "race-free", sig, details(fmt.Sprintf("%d data race report(s) from the Go race detector", races)))
 		return
 	}
@@ -478,6 +523,9 @@ func c14ExecRun(t *rapid.T) {
 	ref := map[refKey]execRes{}
 	for _, ops := range plan {
 		for _, o := range ops {
+			if o.kind == 8 {
+				continue // S7: compared below, op by op (each op has its own `who`)
+			}
 			k := refKey{o.prog, o.variant, o.kind == 5}
 			if _, ok := ref[k]; ok {
 				continue
@@ -523,6 +571,31 @@ func c14ExecRun(t *rapid.T) {
 		for x, o := range ops {
 			got := results[i][x]
 			want := ref[refKey{o.prog, o.variant, o.kind == 5}]
+			if o.kind == 8 {
+				// the same thing alone: a parent that rendered the page, one child, the layout
+				p := progs[o.prog]
+				rt := newRuntime(p, true)
+				rt.Variant = o.variant
+				par := mkParent(p)
+				var out string
+				var err error
+				rsim := simrt.NewSim(rapidChooser{t}, simrt.Options{Policy: simrt.RoundRobin, MaxSteps: 2000000})
+				rsim.Go("ref", func() {
+					if _, err = safeRender(s7Page, par); err == nil {
+						ctx := mkCtx(par, rt)
+						ctx.Set("who", fmt.Sprintf("T%d.%d", i, x))
+						var lt *plush.Template
+						if lt, err = plush.NewTemplate(s7Layout); err == nil {
+							out, err = safeExec(lt, ctx)
+						}
+					}
+				})
+				if rerr := rsim.Run(); rerr != nil {
+					t.Fatalf("VERIF-INTERNAL S7 reference run failed: %v", rerr)
+				}
+				res := result(out, err, rt)
+				want = execRes{out: res.out, err: res.err, log: res.log}
+			}
 			count("c14_exec_results_compared", 1)
 			if got.out != want.out || got.err != want.err {
 				violate(t, "C14", "concurrent-execution-equals-execution-alone", "result-differs:"+scName, details(fmt.Sprintf("T%d op %d (%s) returned\n  out=%q err=%q\nalone it returns\n  out=%q err=%q", i, x, o, got.out, got.err, want.out, want.err)))
@@ -609,3 +682,7 @@ func c14ExecRun(t *rapid.T) {
 		return d
 	})
 }
+
+// S7: a page that stores a block, and the layout that runs it. The block reads `who`, which only the children bind.
+const s7Page = "<% contentFor(\"side7\") { %>[<%= n2 %> <%= extra %> <%= for (x) in [1, 2] { %><%= x %><% } %>]<% } %>page"
+const s7Layout = "<main><%= contentOf(\"side7\", {\"extra\": who}) %></main><%= who %>"
